@@ -1,6 +1,7 @@
 import Gpc.Model.Proto
 import Gpc.Model.CaseFull
 import Gpc.Model.Compare
+import Gpc.Model.Scratch
 namespace Gpc.Driver
 open Gpc.Proto Gpc.CaseFull Gpc.Utf
 
@@ -19,44 +20,77 @@ def decodeHexes : List String → Option (List (List Nat))
   | [] => some []
   | h :: t => do let a ← decodeHex h; let r ← decodeHexes t; pure (a :: r)
 
-def cfStep (toks : List String) : String :=
+/-- result token of one call and the arena script it runs (`none` = rejected input) -/
+def cfCall (toks : List String) : Option (String × (Scratch.St → Option Scratch.St)) :=
   match toks with
   | "cmp" :: flags :: loc :: [h1, h2] =>
-    match decodeHex h1, decodeHex h2 with
-    | some a, some b =>
-      let f := flags.toList
-      toString (Compare.compare (f.contains 'f') (f.contains 'c') (f.contains 'r') (locOf loc) a b)
-    | _, _ => "invalid"
+    match parseHex h1, parseHex h2 with
+    | some b1, some b2 =>
+      match decodeAll b1.length b1, decodeAll b2.length b2 with
+      | some a, some b =>
+        let f := flags.toList
+        let fold := f.contains 'f'; let coll := f.contains 'c'
+        some (toString (Compare.compare fold coll (f.contains 'r') (locOf loc) a b),
+          fun st => if fold || coll then Scratch.compareScript st fold (locOf loc) a b b1.length b2.length else some st)
+      | _, _ => none
+    | _, _ => none
   | "sort" :: flags :: loc :: hs =>
-    match decodeHexes hs with
-    | some strs =>
-      let f := flags.toList
-      let r := Compare.sort (f.contains 'f') (f.contains 'c') (f.contains 'r') (locOf loc) strs
-      if r.isEmpty then "-" else ",".intercalate (r.map fun s => toHex (encAll s))
-    | none => "invalid"
+    match hs.mapM parseHex with
+    | some bs =>
+      match bs.mapM (fun b => decodeAll b.length b) with
+      | some strs =>
+        let f := flags.toList
+        let fold := f.contains 'f'; let coll := f.contains 'c'
+        let r := Compare.sort fold coll (f.contains 'r') (locOf loc) strs
+        some (if r.isEmpty then "-" else ",".intercalate (r.map fun s => toHex (encAll s)),
+          fun st => if fold || coll then Scratch.sortScript st fold (locOf loc) (strs.zip (bs.map (·.length))) else some st)
+      | none => none
+    | none => none
   | [op, loc, _cap, h] =>
     match parseHex h with
-    | none => "bad-op"
+    | none => none
     | some s =>
       match decodeAll s.length s with
-      | none => "invalid"
+      | none => none
       | some cps =>
         let L := locOf loc
-        if op == "up" then toHex (encAll (upperFull L cps))
-        else if op == "lo" then toHex (encAll (lowerFull L cps))
-        else if op == "cap" then toHex (encAll (capitalize L cps))
-        else "bad-op"
+        if op == "up" then some (toHex (encAll (upperFull L cps)),
+          fun st => Scratch.caseFullScript st s.length (Scratch.upperChunks L (cps.length + 1) cps))
+        else if op == "lo" then some (toHex (encAll (lowerFull L cps)),
+          fun st => Scratch.caseFullScript st s.length (Scratch.lowerChunks L (cps.length + 1) 0 cps))
+        else if op == "cap" then some (toHex (encAll (capitalize L cps)), fun st => some st)
+        else none
   | [op, _cap, h] =>
     match parseHex h with
-    | none => "bad-op"
+    | none => none
     | some s =>
       match decodeAll s.length s with
-      | none => "invalid"
+      | none => none
       | some cps =>
-        if op == "sup" then toHex (encAll (cps.map CaseMap.toUpper))
-        else if op == "slo" then toHex (encAll (cps.map CaseMap.toLower))
-        else if op == "sti" then toHex (encAll (cps.map CaseMap.toTitle))
-        else "bad-op"
-  | _ => "bad-op"
+        let f := if op == "sup" then some CaseMap.toUpper else if op == "slo" then some CaseMap.toLower
+                 else if op == "sti" then some CaseMap.toTitle else none
+        f.map fun f => (toHex (encAll (cps.map f)), fun st => Scratch.caseSimpleScript st s.length)
+  | _ => none
+
+def repeatScript (f : Scratch.St → Option Scratch.St) : Nat → Scratch.St → Option Scratch.St
+  | 0, st => some st
+  | n + 1, st => (f st).bind (repeatScript f n)
+
+/-- `cf [rep <n>] <call>`: result, whether the scratch position changed, heap requests and frees of the scratch arena -/
+def cfStep (toks : List String) : String :=
+  let (reps, call) := match toks with
+    | "rep" :: n :: rest => (n.toNat?.getD 1, rest)
+    | _ => (1, toks)
+  match cfCall call with
+  | none => "bad-op"
+  | some (res, script) =>
+    let st0 : Scratch.St := { arena := Scratch.fresh }
+    match repeatScript script reps st0 with
+    | none => res ++ " SCRATCH-REWIND-FAILED"
+    | some st =>
+      let shape (a : Arena.Arena) := a.nodes.map fun n => (n.cap, n.pos)
+      let d := if shape st.arena == shape st0.arena then 0 else 1
+      let m := if st.mallocs.isEmpty then "-" else ",".intercalate (st.mallocs.map toString)
+      s!"{res} d={d} m:{m} f:{st.frees}"
 
 end Gpc.Driver
